@@ -126,71 +126,91 @@ func (R *Repository) tryUpdateSignatureCertFromChain(entry *Entry, chains *core.
 	}
 }
 
-func (R *Repository) loadCRL(entry *Entry, chains *core.CertificateChains) (err error) {
+// loadCRL loads the crl of an entry, the caller has to hold the write lock of the entry
+func (R *Repository) loadCRL(entry *Entry, chains *core.CertificateChains) error {
+	store, err := R.stageCRL(entry, chains)
+	if err != nil {
+		return err
+	}
+	return R.activateStagedCRL(entry, store)
+}
+
+// activateStagedCRL replaces the store of the entry by a completely loaded and accepted one, the caller has to hold the write lock of the entry
+func (R *Repository) activateStagedCRL(entry *Entry, store crlstore.CRLStore) error {
+	err := entry.CRLStore.Update(store)
+	if err != nil {
+		store.Close()
+		err2 := store.Delete()
+		if err2 != nil {
+			R.logger.Warn("failed to delete database", zap.Error(err2))
+		}
+		return err
+	}
+	entry.Loaded = true
+	entry.Chains = nil
+	return nil
+}
+
+// stageCRL downloads, parses and verifies the crl of an entry into a temporary store. It does not change the entry
+func (R *Repository) stageCRL(entry *Entry, chains *core.CertificateChains) (store crlstore.CRLStore, err error) {
 	R.logger.Debug("loading crl", zap.String("crl", entry.CRLLoader.GetDescription()))
 	tempFileName, err := R.createTempFile()
 	if err != nil {
-		return err
+		return nil, err
 	}
 	defer utils.CloseWithErrorHandling(func() error { return os.Remove(tempFileName) })
 	err = entry.CRLLoader.LoadCRL(tempFileName)
 	if err != nil {
-		return err
+		return nil, err
 	}
 	//like an update the first load is parsed into a temporary store. The store of the entry is only replaced
 	//once the crl was read completely and was accepted, so a rejected or partly read crl leaves nothing behind
 	identifier, err := entry.CRLLoader.GetCRLLocationIdentifier()
 	if err != nil {
-		return err
+		return nil, err
 	}
-	store, err := R.Factory.CreateStore(identifier, true)
+	stagingStore, err := R.Factory.CreateStore(identifier, true)
 	if err != nil {
-		return err
+		return nil, err
 	}
 	defer func() {
 		if err != nil {
-			store.Close()
-			err2 := store.Delete()
+			stagingStore.Close()
+			err2 := stagingStore.Delete()
 			if err2 != nil {
 				R.logger.Warn("failed to delete database", zap.Error(err2))
 			}
 		}
 	}()
-	var processor = crlstore.CRLPersisterProcessor{CRLStore: store}
+	var processor = crlstore.CRLPersisterProcessor{CRLStore: stagingStore}
 	crlLocations, locationsErr := entry.CRLStore.GetCRLLocations()
 	if locationsErr == nil {
 		err = processor.UpdateCRLLocations(crlLocations)
 		if err != nil {
-			return err
+			return nil, err
 		}
 	}
 	result, err := R.crlReader.ReadCRL(processor, tempFileName)
 	if err != nil {
-		return err
+		return nil, err
 	}
 	if R.crlConfig.SignatureValidationModeParsed != config.SignatureValidationModeNone {
 		signatureCert, err := verifyCRLSignature(result, chains)
 		if err != nil {
 			R.logger.Warn("could not validate signature of crl", zap.String("crl", entry.CRLLoader.GetDescription()))
 			if R.crlConfig.SignatureValidationModeParsed == config.SignatureValidationModeVerify {
-				return err
+				return nil, err
 			}
 		} else {
 			R.logger.Debug("signature of crl validated successfully", zap.String("crl", entry.CRLLoader.GetDescription()))
 			err = processor.UpdateSignatureCertificate(signatureCert)
 			if err != nil {
-				return err
+				return nil, err
 			}
 			R.logger.Debug("crl loaded successfully", zap.String("crl", entry.CRLLoader.GetDescription()))
 		}
 	}
-	err = entry.CRLStore.Update(store)
-	if err != nil {
-		return err
-	}
-	entry.Loaded = true
-	entry.Chains = nil
-	return nil
+	return stagingStore, nil
 }
 
 func (R *Repository) addNewEmptyEntry(loader crlloader.CRLLoader, identifier string, chains *core.CertificateChains) (*Entry, error) {
@@ -319,7 +339,7 @@ func (R *Repository) updateCRL(identifier string) error {
 				//a handshake might be loading this entry right now while holding the entry lock
 				return R.loadIfStillNotLoaded(entry)
 			}
-			return R.loadCRL(entry, entry.Chains)
+			return R.loadInBackground(entry)
 		} else {
 			return R.updateCrlEntry(entry, nil)
 		}
@@ -336,6 +356,21 @@ func (R *Repository) loadIfStillNotLoaded(entry *Entry) error {
 		return nil
 	}
 	return R.loadCRL(entry, entry.Chains)
+}
+
+// loadInBackground loads a not yet loaded entry without blocking handshakes: download and parsing run without the entry lock,
+// the lock is only held while the loaded store is put in place
+func (R *Repository) loadInBackground(entry *Entry) error {
+	entry.entryLock.RLock()
+	chains := entry.Chains
+	entry.entryLock.RUnlock()
+	store, err := R.stageCRL(entry, chains)
+	if err != nil {
+		return err
+	}
+	entry.entryLock.Lock()
+	defer entry.entryLock.Unlock()
+	return R.activateStagedCRL(entry, store)
 }
 
 func (R *Repository) updateCrlEntry(entry *Entry, newChains *core.CertificateChains) (err error) {
